@@ -117,6 +117,14 @@ def run(ctx):
             for s in ins:
                 exp += reach(g, [s], False)
             cases.append(("(%s) %s*" % (", ".join(map(str, ins)), b), sorted(exp), g, "multi/" + st))
+            # the same closure in contexts whose sub-chain is re-fed for every input:
+            # a let body, an OR branch, a nested closure body -- each input from a clean slate
+            cases.append(("(%s) let R := %s*; R" % (", ".join(map(str, ins)), b), sorted(exp), g, "multi-let/" + st))
+            cases.append(("(%s) (%s* || 99)" % (", ".join(map(str, ins)), b), sorted(exp), g, "multi-or/" + st))
+            expp = []
+            for s in ins:
+                expp += reach(g, [s], True) or [99]
+            cases.append(("(%s) (%s+ || 99)" % (", ".join(map(str, ins)), b), sorted(expp), g, "multi-or/" + st))
             # E+ == distinct stacks of E E*
             cases.append(("0 %s %s*" % (b, b), None, g, "EEstar/" + st))
             # E? == (E,)
